@@ -102,6 +102,9 @@ type fmtChoice struct {
 var goodFormats = []fmtChoice{{"<h", 2}, {">h", 2}, {"h", 2}, {"<i", 4}, {">i", 4}, {"!l", 4}, {"<l", 4}, {"l", 4}, {"<q", 8}, {">q", 8}, {"!q", 8}, {" <h ", 2}}
 var oddFormats = []fmtChoice{{"b", 1}, {"B", 1}, {"H", 2}, {">I", 4}, {"Q", 8}, {"x", 1}, {"L", 4}, {"<L", 4}, {">H", 2}, {"<B", 1},
 	{"<hh", 4}, {">IIQ", 16}, {"xh", 3}, {"<hi", 6}, {"bbbb", 4}, {">ii", 8}, {"", 0}, {"<", 0}, {"  >", 0}}
+// several type letters and NO byte-order character: the decoder leaves the byte order nil
+var noOrderFormats = []fmtChoice{{"IIQ", 16}, {"hH", 4}, {"QQ", 16}, {"hh", 4}, {"iq", 12}, {"Hb", 3}, {"qh", 10}, {"II", 8},
+	{"HH", 4}, {"ih", 6}, {"Ix", 5}, {"LL", 8}, {"bh", 3}, {"Bq", 9}, {"h h", 4}}
 var badFormats = []string{"<z", "h\x80", "\xc3\xa9", "<h?", "hhhhhZ", "\xff"}
 
 // structured makes one datagram from parts and returns it with its field boundaries
@@ -112,7 +115,12 @@ func structured(r *lib.Rng, big bool) (dg []byte, bounds []int) {
 	fmtUnits := 1
 	haveFormat := !r.Chance(1, 7)
 	var fmtBytes []byte
+	noOrder := false
 	switch {
+	case r.Chance(1, 8):
+		fc = noOrderFormats[r.Intn(len(noOrderFormats))]
+		fmtBytes = []byte(fc.s)
+		noOrder = true
 	case r.Chance(6, 10):
 		fc = goodFormats[r.Intn(len(goodFormats))]
 		fmtBytes = []byte(fc.s)
@@ -123,7 +131,7 @@ func structured(r *lib.Rng, big bool) (dg []byte, bounds []int) {
 		fmtBytes = []byte(badFormats[r.Intn(len(badFormats))])
 		fc = fmtChoice{"", 2}
 	}
-	if r.Chance(1, 8) {
+	if !noOrder && r.Chance(1, 8) {
 		fmtUnits = 2
 		if r.Chance(1, 2) { // long format strings: many letters
 			n := r.Range(7, 14)
@@ -244,6 +252,9 @@ func structured(r *lib.Rng, big bool) (dg []byte, bounds []int) {
 	}
 	// payload
 	frames := r.Range(0, 4)
+	if noOrder {
+		frames = r.Range(1, 4)
+	}
 	if big {
 		frames = r.Range(100, 400)
 	}
@@ -585,6 +596,24 @@ func randomBuild(r *lib.Rng, big bool) Item {
 	default:
 		it.Bops = []BOp{nd()}
 	}
+	if !big && r.Chance(1, 10) {
+		// many dimensions (all 1) around the header-length limit, time stamp after or before
+		n := r.Range(92, 124)
+		dims := make([]int, n)
+		for i := range dims {
+			dims[i] = 1
+		}
+		w := r.Pick([]int{2, 4, 8})
+		many := BOp{O: "nd", W: w, Vals: randVals(r, w, r.Range(0, 6)), Dims: dims}
+		switch r.Intn(4) {
+		case 0:
+			it.Bops = []BOp{ts(), many}
+		case 1:
+			it.Bops = []BOp{many, ts(), {O: "rts"}, ts()}
+		default:
+			it.Bops = []BOp{many, ts()}
+		}
+	}
 	if big {
 		it.Bops = []BOp{nd()}
 		if r.Chance(1, 2) {
@@ -688,6 +717,11 @@ func corpus() [][]Item {
 		d(cat(hd(24, 3), tlvFormat([]byte("<i"), 1), pay[:3])),
 		d(cat(hd(32, 6), tlvFormat([]byte("<i"), 1), tlvShape([]int{1}, 1), pay[:6])),
 	)
+	// several type letters, no byte-order character: every sample index must be readable
+	for _, f := range []string{"IIQ", "hH", "QQ", "iq", "bh"} {
+		cs = append(cs, d(cat(hd(40, 32), tlvChanOffset(0, 0), tlvFormat([]byte(f), 1), tlvShape([]int{1}, 1), pay, pay)))
+	}
+	cs = append(cs, d(cat(hd(48, 32), tlvFormat([]byte("IIQ"), 1), tlvLabel("value,active,t", 2), tlvShape([]int{0, 1, 0}, 1), pay, pay)))
 	// the repository's captured packets (first packet of each file)
 	repo := os.Getenv("VERIF_REPO")
 	if repo == "" {
@@ -725,6 +759,19 @@ func corpus() [][]Item {
 		b(BOp{O: "nd", W: 8, Vals: []int64{-1 << 63, 1<<63 - 1, 0, -1}, Dims: []int{1}}),
 		b(BOp{O: "nd", W: 0, Vals: nil, Dims: []int{1}}),
 	)
+	// 96..120 dimensions with a time stamp set after / before: the one-byte header length must not wrap
+	ones := func(n int) []int {
+		x := make([]int, n)
+		for i := range x {
+			x[i] = 1
+		}
+		return x
+	}
+	for _, n := range []int{96, 99, 100, 103, 104, 107, 108, 112, 120} {
+		cs = append(cs,
+			b(BOp{O: "nd", W: 2, Vals: v16(4), Dims: ones(n)}, BOp{O: "ts", T: 11, Rate: 125e6}),
+			b(BOp{O: "ts", T: 12, Rate: 125e6}, BOp{O: "nd", W: 2, Vals: v16(4), Dims: ones(n)}))
+	}
 	// histories: every encoding must decode to the object's current fields
 	cs = append(cs,
 		// send a packet, then make fillers from it and send them; advance the caller's time stamp; new data
